@@ -167,6 +167,13 @@ class IdxArr:
         return f"<idx {s.name}:{s.size}>"
 
 
+class IdxMask:
+    """elementwise sign test of a generic index list: sense 'neg' (idx < 0) or 'nonneg' (idx >= 0)"""
+
+    def __init__(s, base, sense):
+        s.base, s.sense = base, sense
+
+
 class PyCallable:
     """host-side helper exposed to the analysed code (vmap wrappers etc.)"""
 
@@ -871,7 +878,7 @@ class Interp:
         for op, c in zip(e.ops, e.comparators):
             r = s.ev(c, env)
             v = s.compare(op, l, r, e)
-            if isinstance(v, Val):
+            if isinstance(v, (Val, IdxMask)):
                 if len(e.ops) > 1:
                     raise Undecided("chained array comparison")
                 return v
@@ -894,6 +901,16 @@ class Interp:
             if isinstance(op, ast.NotEq):
                 return not (l is None and r is None)
             raise PyRaise("TypeError", "ordering comparison with None", s.site)
+        for a, b, flip in ((l, r, False), (r, l, True)):
+            if isinstance(a, IdxArr) and a.kind == "generic" and is_num(b) and D(b).is_zero():
+                kind = type(op)
+                if flip:
+                    kind = {ast.Lt: ast.Gt, ast.Gt: ast.Lt, ast.LtE: ast.GtE, ast.GtE: ast.LtE}.get(kind, kind)
+                if kind is ast.Lt:
+                    return IdxMask(a, "neg")
+                if kind is ast.GtE:
+                    return IdxMask(a, "nonneg")
+                raise Undecided("comparison of an index list with 0 other than < / >=")
         if isinstance(l, Val) or isinstance(r, Val):
             return s.intr.array_compare(s, op, l, r)
         if isinstance(l, tuple) and isinstance(r, tuple):
@@ -922,6 +939,22 @@ class Interp:
         return s.binop(e.op, s.ev(e.left, env), s.ev(e.right, env))
 
     def binop(s, op, l, r):
+        # arithmetic on a generic index list stays symbolic: idx + n (shift), idx % n (negative entries wrapped)
+        for a, b, left in ((l, r, True), (r, l, False)):
+            if isinstance(a, IdxArr) and a.kind in ("generic", "shift") and is_num(b):
+                base, sh = (a.parts if a.kind == "shift" else (a, D(0)))
+                if isinstance(op, ast.Add):
+                    sh2 = sh + D(b)
+                elif isinstance(op, ast.Sub) and left:
+                    sh2 = sh - D(b)
+                elif isinstance(op, ast.Mod) and left and a.kind == "generic":
+                    w = IdxArr(f"wrapneg[{D(b)}]:{a.name}", a.size, kind="wrapneg", parts=(a, D(b)))
+                    return w
+                else:
+                    break
+                if sh2.is_zero():
+                    return base
+                return IdxArr(f"shift[{sh2}]:{base.name}", base.size, kind="shift", parts=(base, sh2))
         if isinstance(l, IdxArr):
             l = s.intr._arr(l)
         if isinstance(r, IdxArr):
